@@ -99,7 +99,7 @@ SPEC = {
              "and its DNS-caching dialer stays in use ('we should try to connect on every shoot') -, one in four up; half of the cases the "
              "target changes once after k >= 1 finished shots (a down one comes up, an up one stops listening while its connections stay "
              "served; then the schedule leaves 3 ms between shots), otherwise it stays as it was for the whole run (a target that is never up: "
-             "every shot of every instance is refused, each instance shoots again after a refused shot). Every ammo entry (4-9, more than "
+             "every shot of every instance is refused, with more entries than instances some instance shoots again after a refused shot). Every ammo entry (3-9, at least two more than "
              "instances; answers ok / any status / empty / close / reset / bad status line / short body when it arrives) must leave one "
              "sample: a failure (no status, net error) exactly when the target has no record of the request, the target's answer "
              "otherwise; scenario invocations (1-3 steps, 3-7 invocations, every arriving request answered well) must each leave a prefix of "
@@ -156,6 +156,15 @@ SPEC = {
                "TestConnectProxy/httptrace_dump_no_response": 0.15,
                "TestHTTPGun/httptrace_trace": 0.15, "TestHTTP2Gun/httptrace_trace": 0.15, "TestScenarioGun/httptrace_trace": 0.15,
                "TestHTTP2ScenarioGun/httptrace_trace": 0.15, "TestConnectProxy/httptrace_trace": 0.15,
+               "TestNamedTarget/by_name_cache_on_down_at_construction": 0.3, "TestNamedTarget/caching_dialer_target_stays_down": 0.14,
+               "TestNamedTarget/caching_dialer_target_comes_up": 0.12, "TestNamedTarget/caching_dialer_refused_then_served": 0.1,
+               "TestNamedTarget/caching_dialer_refused_twice_or_more": 0.22, "TestNamedTarget/caching_dialer_shared_client": 0.04,
+               "TestNamedTarget/by_name_cache_on_down_at_construction_http": 0.08, "TestNamedTarget/by_name_cache_on_down_at_construction_connect": 0.05,
+               "TestNamedTarget/by_name_cache_on_down_at_construction_http_scenario": 0.035,
+               "TestNamedTarget/by_name_cache_on_down_at_construction_http2": 0.02,
+               "TestNamedTarget/by_name_cache_on_down_at_construction_http2_scenario": 0.015,
+               "TestNamedTarget/by_name_cache_off_down_at_construction": 0.09, "TestNamedTarget/by_name_up_at_construction": 0.1,
+               "TestNamedTarget/target_by_ip": 0.1, "TestNamedTarget/target_goes_down": 0.06,
                # absolute counts (every case of the batch runs both guns)
                "TestGRPCDefaultTimeout/default_timeout_grpc_gun": 1, "TestGRPCDefaultTimeout/default_timeout_grpc_scenario_gun": 1},
     "manifest": {
@@ -182,6 +191,11 @@ SPEC = {
                  "identifies steps by connection). Refusing gRPC target (b): the listener is closed while established connections stay "
                  "served, so which calls fail depends on which instance got the token - only the 200 = received / 503 = not received "
                  "split and the sample count are asserted. "
+                 "TestNamedTarget: when the target changes is paced by the engine's own counter of finished shots and is not asserted; "
+                 "which requests were refused is read from the target's records (no record = no answer = the sample must be a failure), so "
+                 "the oracle does not depend on that timing; client-side timeouts are set to 20 s (nothing in that test stalls), the name "
+                 "is used only if this machine resolves it to 127.0.0.1 and nothing else (otherwise 'localhost', otherwise the IP with class "
+                 "no_usable_loopback_name_on_this_machine - the floors on the by_name classes then fail). "
                  "A crash of the worker process (a panic in a goroutine of net/http's transport cannot be recovered by the engine) is "
                  "attributed by the driver to the case being executed."),
     },
